@@ -192,7 +192,7 @@ def run(repo, rep, tier):
             if isinstance(n, ast.Subscript) and isinstance(n.value, ast.Name) and n.value.id == 'alg_db':
                 nsub += 1
                 rep.check('locality', '%s: table is indexed by the category parameter: %s' % (f.name, unparse(n)), unparse(n.slice) == cat, n, 'rating table indexed by %s instead of the category being rendered' % unparse(n.slice))
-        rep.floor('locality', 'table subscripts in %s' % f.name, nsub, 2)
+        rep.floor('locality', 'table subscripts in %s' % f.name, nsub, 1)
     # ---- rule 2: key normalisation agreement -----------------------------------------------------------------------
     wc = wildcard_categories(db2)
     rep.samples.append({'rule': 'name-match', 'wildcard_categories': {k: len(v) for k, v in wc.items()}})
@@ -230,14 +230,51 @@ def run(repo, rep, tier):
     _renderer.verify_json(repo, rep, 'levels', 'unknown', 'levels')
     fu = ce.lookup('ssh2_kexdb', 'SSH2_KexDB.FAIL_UNKNOWN')
     rep.check('unknown', 'FAIL_UNKNOWN says unknown', isinstance(fu, str) and 'unknown' in fu, repo.cls('ssh2_kexdb', 'SSH2_KexDB'), 'FAIL_UNKNOWN text is %r' % fu)
-    # ---- rule 4: lookup reuse --------------------------------------------------------------------------------------------
+    # ---- rule 4: --lookup prints what the report prints (by interpretation) ------------------------------------------------------------------
+    # algorithm_lookup is interpreted on the synthetic table of the renderer model for a request that names a known algorithm, an instance of a wildcard row
+    # (gss-gex-sha1-<hash>) and a name nobody knows: the known name and the wildcard row reach output_algorithms under their category with the per-thread table;
+    # only the unknown name is listed as unknown
     al = repo.func('ssh_audit', 'algorithm_lookup')
     rep.saw(al)
-    adb = [n for n in walk_no_nested(al) if isinstance(n, ast.Assign) and unparse(n.value) == 'SSH2_KexDB.get_db()']
-    rep.check('lookup', '--lookup reads the same per-thread table', len(adb) == 1, al, 'algorithm_lookup does not read SSH2_KexDB.get_db()')
-    calls = [n for n in walk_no_nested(al) if isinstance(n, ast.Call) and call_name(n) == 'output_algorithms']
-    ok = len(calls) == 1 and adb and unparse(bind_args(calls[0], oas).get('alg_db')) == unparse(adb[0].targets[0]) and unparse(bind_args(calls[0], oas).get('alg_type')) == 'alg_type'
-    rep.check('lookup', '--lookup renders through output_algorithms with that table and the category key', ok, calls[0] if calls else al, 'algorithm_lookup does not render through output_algorithms(table, category)')
+    from sa.listinterp import Interp as _I3
+    from sa.abseval import Unknown as _U3, Opaque as _O3
+    table3 = {k: {n: [list(r) for r in rows] for n, rows in v.items()} for k, v in _renderer.DB.items()}
+    shown, lines3 = [], []
+
+    def hook3(call, e, interp):
+        t = call_name(call) or unparse(call.func)
+        if t in ('SSH2_KexDB.get_db',) and not call.args:
+            return (True, table3)
+        if t == 'output_algorithms':
+            b = interp.bind_values(call, oas, e)
+            shown.append((b.get('alg_type'), sorted(b.get('algorithms')) if isinstance(b.get('algorithms'), (list, set, tuple)) else b.get('algorithms'), b.get('alg_db') is table3))
+            return (True, b.get('program_retval'))
+        if isinstance(call.func, ast.Attribute) and unparse(call.func.value) == 'out' and call.func.attr in ('fail', 'warn', 'info', 'good', 'head'):
+            try:
+                lines3.append((call.func.attr, interp.value(call.args[0], e)))
+            except _U3:
+                lines3.append((call.func.attr, _O3()))
+            return (True, None)
+        return None
+    from props._renderer import codes as _codes3
+    env3 = dict(_codes3(repo))
+    env3.update({'out': _O3(), 'alg_names': 'k-warn,gss-gex-sha1-AbC+d==,no-such-name', 'SSH2_KexDB.MASTER_DB': {k_: dict(v_) for k_, v_ in table3.items()}})
+    try:
+        from sa.core import repo_resolver as _rr3
+        fin3 = _I3(call_hook=hook3, budget=60000, resolver=_rr3(repo, exclude=('algorithm_lookup', 'output_algorithms'))).run(al.body, env3)
+    except _U3 as ex:
+        raise AnalysisError('algorithm_lookup cannot be interpreted: %s' % ex)
+    if len(fin3) != 1 or fin3[0].get('<forks>'):
+        raise AnalysisError('algorithm_lookup does not evaluate on a single path (forks %s)' % [f_.get('<forks>') for f_ in fin3][:1])
+    kex_shown = [x for x in shown if x[0] == 'kex']
+    names_shown = kex_shown[0][1] if kex_shown else []
+    rep.check('lookup', '--lookup renders through output_algorithms with the per-thread table and the category key', len(kex_shown) == 1 and kex_shown[0][2] and all(x[2] for x in shown), al,
+              'algorithm_lookup renders %s' % [(a, n) for a, n, t in shown], stmt='lookup rendering')
+    rep.check('lookup', '--lookup finds a known name', isinstance(names_shown, list) and 'k-warn' in names_shown, al, '--lookup k-warn shows %s' % (names_shown,), stmt='lookup known name')
+    unknown_listed = [t for lv, t in lines3 if isinstance(t, str) and 'gss-gex-sha1' in t and lv == 'fail']
+    rep.check('lookup', 'an instance of a wildcard row (gss-gex-sha1-<hash>) is looked up under that row, as the scan report rates it', isinstance(names_shown, list) and any(isinstance(n, str) and n.startswith('gss-gex-sha1-') for n in names_shown) and not unknown_listed, al,
+              '--lookup gss-gex-sha1-<hash> lists the name as unknown (shown under kex: %s) although the report of a scan rates it from the row gss-gex-sha1-*: what --lookup prints for a name does not match the report' % (names_shown,), stmt='lookup of a wildcard instance')
+    rep.check('lookup', 'a name no table knows is listed as unknown', any(isinstance(t, str) and 'no-such-name' in t for lv, t in lines3), al, '--lookup does not report no-such-name as unknown: %s' % lines3[:4], stmt='lookup unknown name')
     for other in ('MASTER_DB',):
         rep.check('lookup', '--lookup does not read MASTER_DB directly', other not in unparse(al), al, 'algorithm_lookup reads %s' % other)
 
